@@ -40,7 +40,7 @@ var staticTrusted = []string{
 	"Go type checker and go/ssa builder (golang.org/x/tools v0.50.0), NaiveForm",
 	"this project's VC generator (cmd/govc): heap model (typed Burstall-Bornat field arrays, element heap), loop cutting, modular calls",
 	"SMT solvers z3 4.8.12, z3 5.1.0, cvc5 1.0.x: an `unsat` from any one discharges an obligation",
-	"slice offsets/lengths/capacities < 2^62",
+	"slice offsets, lengths and capacities < 2^60 (the Go runtime limits a heap object to 2^48 bytes)",
 	"package-level error sentinels and lookup tables are never reassigned after initialisation (scanned over the SSA of the whole program)",
 	"single-threaded execution; floats opaque; no unsafe",
 	"theory int: unsigned arithmetic wraps mod 2^w exactly, signed arithmetic is proved overflow-free (obligation) and then treated as mathematical",
@@ -241,7 +241,11 @@ func checkMain(args []string) {
 			failures = append(failures, failure{o, u, o.result})
 		}
 		for k, v := range u.havocs {
-			assumptionsHit["havoc: "+k] += v
+			if strings.HasPrefix(k, "assumed postcondition") {
+				assumptionsHit[k] += v
+			} else {
+				assumptionsHit["havoc: "+k] += v
+			}
 		}
 		for k, v := range u.calleesUsed {
 			calleeModes[k] = v
